@@ -32,9 +32,23 @@ type c20Desc struct {
 type countingStream struct {
 	buf    bytes.Buffer
 	writes int
+	quota  int // < 0: unlimited; otherwise the stream fails once this many bytes were accepted
 }
 
-func (c *countingStream) Write(p []byte) (int, error) { c.writes++; return c.buf.Write(p) }
+func (c *countingStream) Write(p []byte) (int, error) {
+	c.writes++
+	if c.quota >= 0 {
+		room := c.quota - c.buf.Len()
+		if room < len(p) {
+			if room < 0 {
+				room = 0
+			}
+			c.buf.Write(p[:room])
+			return room, errors.New("injected: broken pipe")
+		}
+	}
+	return c.buf.Write(p)
+}
 
 var c20Ops = []string{"OnPutOnce", "OnPutAlways", "Has:k1", "Has:k2", "Put:k1", "Put:k2", "Put:id", "Close"}
 
@@ -46,7 +60,7 @@ func c20Cfg(target string) lab.Cfg {
 		return lab.Cfg{}
 	case "path-v2-opts":
 		return lab.Cfg{DataPad: 5, IndexPad: 3, Sorted: true, StoreID: true}
-	case "stream":
+	case "stream", "stream-failing":
 		return lab.Cfg{V1: true}
 	case "stream-opts":
 		return lab.Cfg{V1: true, AllowDup: true, StoreID: true, WholeCID: true}
@@ -81,7 +95,13 @@ func c20RunHistory(t *mon.T, target string, hist []string, dir string) {
 		mustWrite(path, bytes.Repeat([]byte{0xEE}, 4096))
 		preexisting = true
 	}
-	stream := &countingStream{}
+	stream := &countingStream{quota: -1}
+	failing := target == "stream-failing"
+	if failing {
+		// the stream breaks after the header (59 bytes) / after the first section / inside the header
+		stream.quota = []int{70, 110, 20, 59}[len(hist)%4]
+	}
+	streamFailed := false
 	var w *deferred.DeferredCarWriter
 	// the deferred stream constructor forces CARv1 itself; pass the remaining options only
 	dopts := cfg
@@ -147,6 +167,9 @@ func c20RunHistory(t *mon.T, target string, hist []string, dir string) {
 				}
 				break
 			}
+			if streamFailed {
+				break // lookups on a writer whose stream failed are C16's business
+			}
 			adm, _ := m.Lookup(b.Cid)
 			want := started && len(adm) > 0
 			if err != nil || has != want {
@@ -162,11 +185,8 @@ func c20RunHistory(t *mon.T, target string, hist []string, dir string) {
 				}
 				break
 			}
-			if err != nil {
-				viol("Put/error", "step %d: Put failed: %v", i, err)
-				return
-			}
-			// callbacks: registration order, once-callbacks exactly once
+			// callbacks: registration order, once-callbacks exactly once; they announce the START of
+			// a Put, so a Put that then fails on the stream has fired them too
 			var keep []cb
 			for _, c := range cbs {
 				wantLog = append(wantLog, fmt.Sprintf("cb%d(%d)", c.id, len(b.Data)))
@@ -175,6 +195,19 @@ func c20RunHistory(t *mon.T, target string, hist []string, dir string) {
 				}
 			}
 			cbs = keep
+			if err != nil && failing {
+				streamFailed = true
+				started = true // the first Put was attempted: output may exist from here on
+				t.Cover("failing-stream:put-failed")
+				break
+			}
+			if err != nil {
+				viol("Put/error", "step %d: Put failed: %v", i, err)
+				return
+			}
+			if streamFailed {
+				break // e.g. a de-duplicated Put needs no write; what a broken stream may acknowledge is C16's business
+			}
 			if !started {
 				started = true
 				var derr error
@@ -197,11 +230,14 @@ func c20RunHistory(t *mon.T, target string, hist []string, dir string) {
 				}
 				break
 			}
-			if err != nil {
+			if err != nil && !streamFailed {
 				viol("Close/error", "step %d: Close failed: %v", i, err)
 			}
-			closed = true
-			if started {
+			if streamFailed {
+				t.Cover("failing-stream:close-after-failure")
+			}
+			closed = true // whatever Close returned, the writer is closed from now on
+			if started && !streamFailed {
 				if derr := dw.Finalize(); derr != nil {
 					panic(derr)
 				}
@@ -221,6 +257,8 @@ func c20RunHistory(t *mon.T, target string, hist []string, dir string) {
 				viol("laziness/output-before-first-put", "step %d (%s): %s before the first Put", i, op, what)
 			}
 			t.Cover("lazy-steps-observed")
+		} else if streamFailed {
+			// bytes after a failed write are C16's business; here only "closed means closed" and the callbacks
 		} else {
 			want := direct.Bytes()
 			if !exists || !bytes.Equal(out, want) {
@@ -284,7 +322,7 @@ func runC20(t *mon.T, raw json.RawMessage) {
 }
 
 func genC20(g *mon.G) {
-	targets := []string{"path-v1", "path-v2", "path-v2-opts", "stream", "stream-opts", "stream-writerat-v2"}
+	targets := []string{"path-v1", "path-v2", "path-v2-opts", "stream", "stream-opts", "stream-writerat-v2", "stream-failing"}
 	depth := g.Pick(3, 5) // histories up to length 1+depth
 	for _, tg := range targets {
 		for _, op := range c20Ops {
@@ -301,10 +339,10 @@ func init() {
 	Register(&mon.Check{
 		ID:          "C20",
 		Level:       "exploration",
-		Rule:        "EXHAUSTIVE: all op strings of length ≤ 4 (quick) / ≤ 6 (thorough) over {OnPut(once), OnPut(always), Has(k1), Has(k2), Put(k1), Put(k2), Put(identity), Close} x 6 targets (path CARv1, path CARv2, path CARv2 with paddings/codec/identity options, stream, stream with options, a stream that is an io.WriterAt with WriteAsCarV1(false)), plus random strings of length 5-30; after EVERY step: no write on the stream / no file before the first Put, then output bytes equal to a directly constructed storage.NewWritable fed the same puts, callback log equal to the model's (registration order, once-callbacks exactly once), closed-error after Close. A case = all strings sharing a first op; counters.histories counts individual strings",
+		Rule:        "EXHAUSTIVE: all op strings of length ≤ 4 (quick) / ≤ 6 (thorough) over {OnPut(once), OnPut(always), Has(k1), Has(k2), Put(k1), Put(k2), Put(identity), Close} x 7 targets (path CARv1, path CARv2, path CARv2 with paddings/codec/identity options, stream, stream with options, a stream that is an io.WriterAt with WriteAsCarV1(false), a stream that breaks after 20/59/70/110 bytes: callbacks still once per Put, and after the first Close, whatever it returned, every call reports closed), plus random strings of length 5-30; after EVERY step: no write on the stream / no file before the first Put, then output bytes equal to a directly constructed storage.NewWritable fed the same puts, callback log equal to the model's (registration order, once-callbacks exactly once), closed-error after Close. A case = all strings sharing a first op; counters.histories counts individual strings",
 		Assumptions: []string{"the direct writer itself is judged by C01/C05; here only equality with it", "callbacks are registered from the same goroutine (OnPut is registration, not a concurrent operation)"},
 		Gen:         genC20,
 		Run:         runC20,
-		MinCover:    map[string]int{"histories": 10000, "lazy-steps-observed": 1000, "byte-comparisons": 5000, "first-put": 1000, "close-before-put": 100, "close-after-put": 500, "histories-with-callbacks": 1000},
+		MinCover:    map[string]int{"histories": 10000, "lazy-steps-observed": 1000, "byte-comparisons": 5000, "first-put": 1000, "close-before-put": 100, "close-after-put": 500, "histories-with-callbacks": 1000, "failing-stream:put-failed": 100, "failing-stream:close-after-failure": 50},
 	})
 }
